@@ -276,51 +276,21 @@ func c12LossFree(a *c12Agg, item *int64) {
 // c12RaiseStates: datagram-size raise reported while the window fields sit on the boundary values
 // the code compares against (old minimum, old initial window, maximum), in every mode the
 // prefixes reach.
-func c12RaiseStates(a *c12Agg, item *int64) {
-	sh := a.sh
-	env := sh.Env()
-	p := sh.Part("raise-at-boundary-windows", "enum")
-	prefixes := [][]int{{}, {c12EvClean12}, {c12EvClean12, c12EvClean12}, {c12EvClean12, c12EvClean12, c12EvLoss3}, {c12EvClean12, c12EvClean12, c12EvBurst}, {c12EvClean12, c12EvIdle, c12EvClean1}}
-	raises := []int64{1, 52, 148, 252}
-	paths := []int{0, 1, 3}
-	var pn, names []string
-	for _, pre := range prefixes {
-		pn = append(pn, c12SeqNames(pre))
-	}
-	for _, pi := range paths {
-		names = append(names, c12PathOf(pi).Name)
-	}
-	p.Alphabet = map[string]any{"profiles": c12Profiles, "paths": names, "prefixes": pn, "congestionWindow_set_to": c12WinLabels, "recoveryWindow_set_to": append([]string{"unchanged"}, c12RecLabels[1:]...),
-		"datagram_size_raised_by": raises, "then": "oracle right after SetMaxDatagramSize, then 1 RTT clean"}
-	p.Note("window fields are written by the harness (state injection, as the upstream tests do): the boundary values min/initial/max the code switches on are not all reached by simulated traces")
+var c12RaisePrefixes = [][]int{{}, {c12EvClean12}, {c12EvClean12, c12EvClean12}, {c12EvClean12, c12EvClean12, c12EvLoss3}, {c12EvClean12, c12EvClean12, c12EvBurst}, {c12EvClean12, c12EvIdle, c12EvClean1}}
+var c12RaiseDeltas = []int64{1, 52, 148, 252}
+var c12RaisePaths = []int{0, 1, 3}
+
+// c12RaiseCases calls f with every case of the part in canonical order.
+func c12RaiseCases(f func(c *c12Case) bool) {
 	for _, prof := range c12Profiles {
-		for _, pi := range paths {
-			for _, pre := range prefixes {
+		for _, pi := range c12RaisePaths {
+			for _, pre := range c12RaisePrefixes {
 				for _, wl := range c12WinLabels {
 					for _, rl := range c12RecLabels {
-						for _, ra := range raises {
-							*item++
-							if !env.Mine(*item) {
-								continue
-							}
-							c := c12Case{Part: p.Name, Profile: string(prof), Path: pi, MaxPkts: c12RealMaxPkts, Prefix: pre, Seq: []int{c12EvClean1}, Draw: c12Draws[0], ForceWin: wl, ForceRec: rl, Raise: ra}
-							r := c12Run(&c)
-							a.observe(p, &c, &r)
-							if p.Evaluations%499 == 1 {
-								p.Sample(c)
-							}
-							if r.infra != "" {
-								sh.InfraError("%s: %s", c12Sig(&c, "infra", r.drawUsed), r.infra)
+						for _, ra := range c12RaiseDeltas {
+							c := c12Case{Part: "raise-at-boundary-windows", Profile: string(prof), Path: pi, MaxPkts: c12RealMaxPkts, Prefix: pre, Seq: []int{c12EvClean1}, Draw: c12Draws[0], ForceWin: wl, ForceRec: rl, Raise: ra}
+							if !f(&c) {
 								return
-							}
-							if r.clause != "" {
-								key := fmt.Sprintf("%s|%s|%s", p.Name, r.clause, wl)
-								if a.reported[key] {
-									p.Count("further_violating_traces_not_listed", 1)
-									continue
-								}
-								a.reported[key] = true
-								sh.Violate(p.Name, c12Sig(&c, r.clause, r.drawUsed), r.detail, &c)
 							}
 						}
 					}
@@ -328,6 +298,56 @@ func c12RaiseStates(a *c12Agg, item *int64) {
 			}
 		}
 	}
+}
+
+func c12RaiseStates(a *c12Agg, item *int64) {
+	sh := a.sh
+	env := sh.Env()
+	p := sh.Part("raise-at-boundary-windows", "enum")
+	var pn, names []string
+	for _, pre := range c12RaisePrefixes {
+		pn = append(pn, c12SeqNames(pre))
+	}
+	for _, pi := range c12RaisePaths {
+		names = append(names, c12PathOf(pi).Name)
+	}
+	p.Alphabet = map[string]any{"profiles": c12Profiles, "paths": names, "prefixes": pn, "congestionWindow_set_to": c12WinLabels, "recoveryWindow_set_to": append([]string{"unchanged"}, c12RecLabels[1:]...),
+		"datagram_size_raised_by": c12RaiseDeltas, "then": "oracle right after SetMaxDatagramSize, then 1 RTT clean"}
+	p.Note("window fields are written by the harness (state injection, as the upstream tests do): the boundary values min/initial/max the code switches on are not all reached by simulated traces")
+	c12RaiseCases(func(c *c12Case) bool {
+		*item++
+		if !env.Mine(*item) {
+			return true
+		}
+		r := c12Run(c)
+		a.observe(p, c, &r)
+		if p.Evaluations%499 == 1 {
+			p.Sample(*c)
+		}
+		if r.infra != "" {
+			sh.InfraError("%s: %s", c12Sig(c, "infra", r.drawUsed), r.infra)
+			return false
+		}
+		if r.clause != "" {
+			key := p.Name + "|" + r.clause
+			if a.reported[key] {
+				p.Count("further_violating_traces_not_listed", 1)
+				return true
+			}
+			a.reported[key] = true
+			// every shard reports the first case in canonical order that violates this clause
+			mc, mr := *c, r
+			c12RaiseCases(func(c2 *c12Case) bool {
+				if r2 := c12Run(c2); r2.clause == r.clause {
+					mc, mr = *c2, r2
+					return false
+				}
+				return true
+			})
+			sh.Violate(p.Name, c12Sig(&mc, mr.clause, mr.drawUsed), mr.detail, &mc)
+		}
+		return true
+	})
 }
 
 func c12Spaces(thorough bool) []*c12Space {
